@@ -216,7 +216,66 @@ def k_random(ctx, seed):
     k_frag(ctx, [p.hex() for p in pk], ids13, cuts, r.choice(SCHEDULES), r.choice((0, 0, 1, 2)))
 
 
-KINDS = {"frag": k_frag, "garbage": k_garbage, "random": k_random}
+def k_objects(ctx, seed, schedule):
+    """Streams made of packets packed by the library's own packet classes (PusTc, PusTm through every construction route, also with
+    unusual primary headers, generic SpacePacket), with the parser given the packet ids *those objects report*."""
+    from spacepackets.ecss.tc import PusTc, PusTcDataFieldHeader
+    from spacepackets.ecss.tm import PusTm, PusTmSecondaryHeader
+    sp = _sp()
+    r = random.Random(f"objects/{seed}")
+    case = {"k": "objects", "seed": seed, "schedule": schedule}
+    objs = []
+    for _ in range(r.randrange(1, 4)):
+        kind = r.choice(("tc_ctor", "tc_composite", "tm_ctor", "tm_composite", "tm_unpacked", "space_packet"))
+        apid, cnt, data = r.getrandbits(11), r.getrandbits(14), r.randbytes(r.randrange(1, 12))
+        shf = bool(r.getrandbits(1))
+        if kind == "tc_ctor":
+            o = PusTc(service=r.getrandbits(8), subservice=r.getrandbits(8), apid=apid, seq_count=cnt, app_data=data)
+        elif kind == "tc_composite":
+            h = sp.SpacePacketHeader(sp.PacketType.TC, apid, cnt, len(data) + 6, shf, sp.SequenceFlags(r.getrandbits(2)), r.getrandbits(3))
+            o = PusTc.from_composite_fields(h, PusTcDataFieldHeader(3, 4, 5, 6), data)
+        elif kind == "tm_ctor":
+            o = PusTm(service=17, subservice=2, timestamp=r.randbytes(r.choice((0, 7))), source_data=data, apid=apid, seq_count=cnt)
+        elif kind in ("tm_composite", "tm_unpacked"):
+            ts = r.randbytes(r.choice((0, 7)))
+            h = sp.SpacePacketHeader(sp.PacketType.TM, apid, cnt, 7 + len(ts) + len(data) + 1, shf, sp.SequenceFlags(r.getrandbits(2)), r.getrandbits(3))
+            o = PusTm.from_composite_fields(h, PusTmSecondaryHeader(5, 6, ts, 7, 8, 9), data)
+            if kind == "tm_unpacked":
+                o = PusTm.unpack(bytes(o.pack()), len(ts))
+        else:
+            h = sp.SpacePacketHeader(sp.PacketType(r.getrandbits(1)), apid, cnt, len(data) - 1, False, sp.SequenceFlags(r.getrandbits(2)))
+            o = sp.SpacePacket(h, None, data)
+        ctx.table("object_kinds", kind + ("" if kind in ("tc_ctor", "tm_ctor", "space_packet") else f"/shf={int(shf)}"))
+        objs.append(o)
+    pk = [bytes(o.pack()) for o in objs]
+    ids = []
+    for o in objs:
+        pid = o.sp_header.packet_id if isinstance(o, sp.SpacePacket) else o.packet_id
+        ids.append(pid)
+    stream = b"".join(pk * r.choice((1, 2)))
+    pk = pk * (len(stream) // max(1, len(b"".join(pk))))
+    ids13 = sorted({int.from_bytes(p[:2], "big") & 0x1FFF for p in pk})
+    ctx.case(f"objects/{schedule}", (stream, schedule), sample=dict(case, stream=stream.hex()[:160]))
+    ctx.check("parser.ids_from_objects", sorted({i.raw() for i in ids}) == ids13, "reported_packet_id_differs_from_the_packed_header", "", case,
+              observed=[hex(i.raw()) for i in ids], expected=[hex(i) for i in ids13])
+    if split_stream(stream, set(ids13))[0] != pk:
+        ctx.note("object stream ambiguous for the model (payload looks like a registered id): skipped")
+        return
+    cuts = sorted(r.sample(range(1, len(stream)), min(len(stream) - 1, r.randrange(0, 6))))
+    # the parser gets the PacketId objects reported by the packets themselves
+    q = collections.deque()
+    returned, prev = [], 0
+    for c in cuts + [len(stream)]:
+        q.append(bytearray(stream[prev:c]))
+        prev = c
+        if schedule != "end":
+            returned.extend(bytes(x) for x in sp.parse_space_packets(q, ids))
+    returned.extend(bytes(x) for x in sp.parse_space_packets(q, ids))
+    ctx.check("parser.ids_from_objects", returned == pk and not q, "packets_of_registered_objects_not_returned", "missing" if len(returned) < len(pk) else "different", case,
+              observed=[x.hex()[:40] for x in returned][:6], expected=[x.hex()[:40] for x in pk][:6], cuts=cuts)
+
+
+KINDS = {"objects": k_objects, "frag": k_frag, "garbage": k_garbage, "random": k_random}
 
 
 def selftest(ctx):
@@ -270,6 +329,8 @@ def run(ctx):
     for j in range(ctx.n(1500, 200_000)):
         k_random(ctx, ctx.seed * 1_000_003 + ctx.shard[0] * 100_003 + j)
     for j in range(ctx.n(600, 60_000)):
+        k_objects(ctx, ctx.seed * 1_000_003 + ctx.shard[0] * 100_003 + j, SCHEDULES[j % 4])
+    for j in range(ctx.n(600, 60_000)):
         k_garbage(ctx, ctx.seed * 1_000_003 + ctx.shard[0] * 100_003 + j, SCHEDULES[j % 4])
 
 
@@ -277,7 +338,7 @@ def conclude(ctx):
     cc = ctx.tables.get("cut_classes", {})
     for c in ["in_header@1", "in_header@2", "in_header@3", "in_header@4", "in_header@5", "after_header", "mid_payload", "one_before_end", "packet_boundary"]:
         ctx.require(cc.get(c, 0) > 0, f"cut class {c} never observed")
-    for m in ("parser.call", "parser.conservation", "parser.exactly_once", "parser.final", "parser.idempotent"):
+    for m in ("parser.ids_from_objects", "parser.call", "parser.conservation", "parser.exactly_once", "parser.final", "parser.idempotent"):
         ctx.require(ctx.monitors.get(m, {}).get("evaluations", 0) > 0, f"monitor {m} never evaluated")
     for s in SCHEDULES:
         ctx.require(ctx.classes.get(f"frag/{s}", 0) > 0 and ctx.classes.get(f"garbage/{s}", 0) > 0, f"schedule {s} not exercised")
